@@ -667,6 +667,12 @@ func (x *Exec) havocLoc(st *State, sc *SpecCtx, loc string) {
 		// the unexported fields of this package's types; listed as an assumption)
 		var keepPrefixes []string
 		for _, tn := range worldExcept(loc) {
+			if strings.HasPrefix(tn, "ghost ") {
+				// "world except ghost g": the callee contains no operation on the objects g keeps
+				// books about (g only changes through the contracts that name it)
+				keepPrefixes = append(keepPrefixes, "ghost:"+strings.TrimSpace(strings.TrimPrefix(tn, "ghost ")))
+				continue
+			}
 			keepPrefixes = append(keepPrefixes, x.typePrefix(tn))
 		}
 		for _, pd := range x.eng.cs.Private[x.fx.pkgPath()] {
